@@ -471,6 +471,11 @@ class Ctx:
     self.excluded = True
     raise PathAbort("excluded: " + why)
 
+  def prove_native(self, claim, clause, detail=None):
+    """A claim that only makes sense on native values (e.g. 'exact inputs give exact, not float, outputs'): skipped in
+    the symbolic run, evaluated on every solver-chosen witness of every path; a failure there is a violation."""
+    return True
+
   def prove(self, claim, clause, detail=None):
     st = self.stats
     st.obligations += 1
@@ -631,9 +636,9 @@ class CandidateViolation(BaseException):
 # concrete context: same harness, plain Python values
 # --------------------------------------------------------------------------
 class ClauseFailed(Exception):
-  def __init__(self, clause, detail):
+  def __init__(self, clause, detail, native=False):
     Exception.__init__(self, "%s: %s" % (clause, detail))
-    self.clause, self.detail = clause, detail
+    self.clause, self.detail, self.native = clause, detail, native
 
 
 _ELEM_PRIMES = [Fraction(p) for p in (2, 3, 5, 7, 11, 13, 17, 19, 23, 29, 31, 37, 41,
@@ -734,14 +739,17 @@ class ConcreteCtx:
     self.excluded = True
     raise PathAbort("excluded: " + why)
 
-  def prove(self, claim, clause, detail=None):
+  def prove(self, claim, clause, detail=None, native=False):
     self.checked += 1
     if isinstance(claim, (list, tuple)):
       claim = all(bool(c) for c in claim)
     if not claim:
       self.failed.append((clause, detail))
-      raise ClauseFailed(clause, detail)
+      raise ClauseFailed(clause, detail, native)
     return True
+
+  def prove_native(self, claim, clause, detail=None):
+    return self.prove(claim, clause, detail, native=True)
 
 
 def run_concrete(harness, cfg, model, caps=None, floats=False):
@@ -755,7 +763,7 @@ def run_concrete(harness, cfg, model, caps=None, floats=False):
             "detail": "the real code did not come back within %s s on these inputs (endless loop?)"
                       % (caps or {}).get("path_s", 90)}
   except ClauseFailed as e:
-    return {"status": "failed", "clause": e.clause, "detail": str(e.detail)[:500], "ctx": ctx}
+    return {"status": "failed", "clause": e.clause, "detail": str(e.detail)[:500], "ctx": ctx, "native": e.native}
   except PathAbort:
     return {"status": "excluded", "ctx": ctx}
   except EngineError as e:
@@ -935,6 +943,12 @@ def explore(harness, cfg, caps, hname="?"):
                                    "bad": bad, "model": _jsonable(md), "cfg": _jsonable(cfg)})
           elif rep["status"] == "excluded":
             stats.witness_skipped += 1
+          elif rep["status"] == "failed" and rep.get("native"):
+            # a native-only clause failed on a solver-chosen witness: a real run of the real code, hence a violation
+            stats.violations.append({"harness": hname, "cfg": _jsonable(cfg), "clause": rep["clause"],
+                                     "sym_clause": "(native-only clause, evaluated on the path witness)",
+                                     "detail": rep.get("detail"), "what": "native-only clause",
+                                     "model": _jsonable(md), "trace": None})
           else:
             stats.errors.append({"why": "witness run disagrees with the solver verdict: %s %s"
                                         % (rep["status"], rep.get("detail")),
